@@ -4,6 +4,21 @@ import json, os
 HERE = os.path.dirname(os.path.abspath(__file__))
 
 CLAIMED = {
+ 'C01': dict(
+   text='PARTIAL. That each emitted set is a simple cycle and that the family is independent depends on the searches on concrete graphs and is not claimed. Decided are necessary conditions visible in the five sibling implementations of the de Pina phase loop (sequential signed, trees, TBB, two MPI): one unconditional emission per phase k = 0..csd-1; the update `for l in k+1..csd: if (support[l]*C == 1) support[l] += support[k]` with C and the emitted list derived from the same search result and the search driven by support[k] read after the sparsest-support swap; a failed set<Edge>::insert during unfolding can never reach a success return (path-sensitive flag propagation); root-only emission under MPI; every visited tree node (root included) gets the first-in-path label the candidate guards compare; SpVecGF2 operator+/* are merges with the right action table, strict shortcut guards and alias-safe +=.',
+   note='Breaking any of these breaks count, independence or simplicity on some input; holding them does not establish the property. The search functions are trusted to return (cycle, weight, found) triples.',
+   technique='sibling cross-check of loop structure via linear forms, provenance tracing and exact CFG path conditions; flag-propagating reachability; merge-loop action tables',
+   ref='DESIGN.md §4 C01'),
+ 'C02': dict(
+   text='PARTIAL. Minimality of each phase (stopping rule, pruning, tie-breaking, candidate sufficiency) is value-level and not claimed. Decided: the returned accumulator starts at zero and is increased exactly once per phase, under the same conditions as the emission, by the weight component of the very triple whose cycle is emitted; while a cycle is assembled every inserted edge has its own weight added and vice versa; every running-best update has the path condition found(x) & (!found(best) | less(w(x), w(best))) (truth table over all update sites of a loop); a first-found lookup is only built over a candidate vector sorted ascending on every path; pruning limits are (found, weight) of one running best; the hidden-edge heuristic erases on every iteration; lexicographic comparators are consistent per rung.',
+   note='These are the bookkeeping clauses of "value returned = sum of emitted weights" and the necessary selection contract for "minimum"; optimality itself is not established.',
+   technique='finite predicate abstraction (truth tables) on exact CFG path conditions; provenance tracing; dominance; per-iteration post-dominance',
+   ref='DESIGN.md §4 C02'),
+ 'C17': dict(
+   text='operator+ and both operator* of SpVecGF2 are recognised as two-cursor merge loops and their per-ordering action tables (a<b, a==b, a>b) are compared with the tables of symmetric difference / parity of the intersection, including the two tail loops, the accumulator toggle and its initial value; any shortcut in front of the merge must concatenate the operands only under a guard that excludes max(first) >= min(second); every source of the coordinate list is canonical (unit ctor, std::set ctor with default comparator, member-wise copy/move/assignment, forwarding accessors); compound operators do not touch their own storage before reading an argument that may alias it. Together with the (pen-and-paper) meta-theorem about such merge tables this decides canonical form for every history of the listed operations.',
+   note='Meta-theorem recorded in sa/rules/c17.py; an implementation outside the merge/std-algorithm idioms is reported as undecided (exit 2), never as a pass. add() is outside the operation list.',
+   technique='merge-loop action tables (A9) + truth tables over orderings for shortcut guards + aliasing rule via effect analysis',
+   ref='DESIGN.md §4 C17'),
  'C03': dict(
    text='For each of the 12 tbb::parallel_for / parallel_reduce call sites of the library (all specialisations of the generic-lambda bodies) an effect analysis classifies every write of the task body as W-local, W-concurrent (growth of a tbb::concurrent_* container) or W-own-index (v[i] with i the induction variable of the task\'s own blocked_range, every other access to v being v[i] or a read v[j] with j proved outside the whole parallel range by linear-form subtraction); anything else, and any static-storage write in a transitive callee, is a race. For parallel_reduce the identity, the join (truth table over found flags and weight orderings: a minimum that treats not-found as identity) and the body (returns its accumulator, updates it only under found(x) & (!found(acc) | less)) are decided exactly. These are the schedule-independent clauses; "delivers the sequential contract" beyond them inherits the limits of C01/C02.',
    note='Assumes disjoint node ownership of distinct SPTree objects, TBB\'s documented concurrency guarantees for concurrent_vector growth, and that non-repo callees do not modify const-reference arguments.',
